@@ -167,16 +167,19 @@ example : PArg.isFn { tyname := "<class'function'>", val := none } = true ∧
 
 /-! ### `_distance`: which `dim` on which class of positions -/
 
+omit [OfNat α 1] in
 /-- on `ENUCoords`, `dim = 1, 2, 3` give `abs(p1.U - p2.U)`, `(p2 - p1).norm2D()`, `(p2 - p1).norm()` (`distance`) -/
 theorem distance_enu (G : Geom α) (h : G.cls = Coords.enu) (d : Nat) (hd : d = 1 ∨ d = 2 ∨ d = 3) :
     distanceOf G (.num d) = .ok (distance G.T.sqrt d) := by
   simp only [distanceOf]
   rw [if_pos hd, h]
 
+omit [OfNat α 1] in
 /-- the function form of `dim` (`'function' in str(type(dim))`): the callable is the point distance, whatever the class of
 the positions -/
 theorem distance_function_form (G : Geom α) (f : Pt α → Pt α → α) : distanceOf G (.fn f) = .ok f := rfl
 
+omit [OfNat α 1] in
 /-- on `GeoCoords`: `dim = 2` is `distance2DTo` (horizontal distance in the local frame of the second point), `dim = 3` the
 distance of the two ECEF images; `dim = 1` reads an attribute `U` that a `GeoCoords` does not have -/
 theorem distance_geo (G : Geom α) (h : G.cls = Coords.geo) :
@@ -186,6 +189,7 @@ theorem distance_geo (G : Geom α) (h : G.cls = Coords.geo) :
   simp only [distanceOf]
   simp [h]
 
+omit [OfNat α 1] in
 /-- on `ECEFCoords` only `dim = 3` is defined (no `U`, no `distance2DTo`) -/
 theorem distance_ecef (G : Geom α) (h : G.cls = Coords.ecef) :
     distanceOf G (.num 1) = .error "err:attr" ∧ distanceOf G (.num 2) = .error "err:attr" ∧
@@ -509,12 +513,14 @@ theorem distance_symm (sqrt : α → α) (dim : Nat) (p q : Pt α) : distance sq
     · simp only [h2, if_true]; congr 1; ring
     · simp only [h2, if_false]; congr 1; ring
 
+omit [LinearOrder α] [IsStrictOrderedRing α] in
 /-- `ECEFCoords.distanceTo` is symmetric (squares of coordinate differences), for any `sqrt` -/
 theorem ecefDistance_symm (T : Geo.Trig α) (a b : Geo.V3 α) : ecefDistance T a b = ecefDistance T b a := by
   simp only [ecefDistance]
   congr 1
   ring
 
+omit [LinearOrder α] [IsStrictOrderedRing α] in
 /-- `GeoCoords.distanceTo` (distance of the ECEF images) is symmetric, whatever `sin`, `cos`, `sqrt`, `pow` compute -/
 theorem geoDistance3D_symm (T : Geo.Trig α) (a b : Geo.V3 α) : geoDistance3D T a b = geoDistance3D T b a :=
   ecefDistance_symm T _ _
@@ -561,6 +567,7 @@ theorem distanceOf_symm (G : Geom α) (d : Nat) (h : G.cls = Coords.enu ∨ d = 
 /-- the accumulation that `match` uses in the modes DTW (`p`) and FRECHET (`inf`) -/
 def weightOf (mode : Mode) (p : PNorm) : α → α → α := weight (if mode = Mode.frechet then PNorm.inf else p)
 
+omit [IsStrictOrderedRing α] in
 /-- in the modes DTW / FRECHET `match` on tracks without features is `_dtw` with the accumulation of the mode -/
 theorem matchTracks_of_dtw (G : Geom α) (big : α) (mode : Mode) (hm : mode ≠ Mode.fdtw) (p : PNorm) (dim : DimArg α)
     (dist : Pt α → Pt α → α) (hd : distanceOf G dim = .ok dist) (u v : List (Pt α)) (hu : 0 < u.length) (hv : 0 < v.length)
